@@ -422,7 +422,12 @@ class World:
                     t_free = max(raw, default=rec_['t_call'])       # the caller of the last request with this key returned
                     # when was this request last handed to the transmit thread before that?  by its caller, or by the requeue that
                     # follows every earlier reply
-                    t_handed = max([rec_['t_call']] + [x for x in raw if x < t_free - 1e-9])
+                    # (every matched reply requeues, whatever its key: replies to other requests count as well)
+                    others_ = sorted(v['t_ret'] for k2, v in results.items() if k2 != key and 't_ret' in v and ('reply' in v or v.get('error', ('',))[0] not in ('', 'TimeoutError')))
+                    others_ = [x for x in others_ if x < t_free + 0.05]
+                    if others_ and abs(others_[-1] - t_free) < 1e-9:
+                        others_.pop()          # (the request that freed the key itself)
+                    t_handed = max([rec_['t_call']] + [x for x in raw if x < t_free - 1e-9] + others_)
                     how = 'issued-while-its-key-was-being-freed' if t_free - t_handed < 0.05 else 'after-waiting-in-the-queue'
                     r.violation(f'C11/request-held-back-although-its-key-was-free/{how}',
                                 f'caller {key} ({rec_["kind"]}) called at {rec_["t_call"] - self.D.T0:.2f}, the last request with the same key ended at '
